@@ -8,12 +8,15 @@ TData == JsonDeserialize(IOEnv.TRACE_FILE)
 NT == Len(TData.traces)
 Steps(i) == TData.traces[i].steps
 
-VARIABLES tid, l, cur, emit, logd, bos
-tvars == <<cfg, tid, l, cur, emit, logd, bos>>
+VARIABLES tid, l, cur, emit, logd, bos, absS
+tvars == <<cfg, tid, l, cur, emit, logd, bos, absS>>
 
 MergeD(c, d) == [k \in DOMAIN c |-> IF k \in DOMAIN d THEN d[k] ELSE c[k]]
 
-Norm(T) == [T EXCEPT !.queue = NoStop(@), !.sch.status = ""]
+(* executions under the permuting environment insert new events at random  *)
+(* positions among the events of their instant: compare the queue as a set *)
+Norm(T) == [T EXCEPT !.queue = IF cfg.perm = {} THEN NoStop(@) ELSE SeqToSet(NoStop(@)),
+                     !.sch.status = ""]
 MatchS(T, B) == Norm(T) = Norm(B)
 StatusOK(A, B) == A.sch.status = "DELAYED" => B.sch.status = "DELAYED"
 
@@ -84,8 +87,8 @@ Report(ok, tag, i, what) == IF ok THEN TRUE ELSE PrintT(<<tag, tid, i, what>>)
 EndChecks(tr, i) ==
     LET e == tr.end
         X == Abs(e.st)
-    IN /\ Report(e.exc.type = "" /\ ~e.budget, "L1", i, "C05.completes")
-       /\ Report(e.budget \/ e.t <= SerialBound * K, "L1", i, "C05.bound")
+    IN /\ Report(cfg.alg = "adv" \/ (e.exc.type = "" /\ ~e.budget), "L1", i, "C05.completes")
+       /\ Report(cfg.alg = "adv" \/ e.budget \/ e.t <= SerialBound * K, "L1", i, "C05.bound")
        /\ IF e.completed /\ e.exc.type = "" /\ Len(tr.segs) = 0
           THEN /\ Report(End_C02(X), "L1", i, "C02.end")
                /\ Report(End_C04(X), "L1", i, "C04.end")
@@ -101,10 +104,12 @@ EndChecks(tr, i) ==
           ELSE TRUE
 
 TInit == /\ tid \in 1..NT
-         /\ emit = <<>> /\ logd = <<>> /\ bos = 1
+         /\ emit = <<>> /\ logd = <<>>
          /\ l = 1
          /\ cur = Steps(tid)[1].d
          /\ cfg = CfgOf(TData.traces[tid].cfg)
+         /\ absS = Abs(cur)
+         /\ bos = absS
 
 Exact(A, rec) ==
     rec.lab.kind \in {"STOP", "END"}
@@ -113,18 +118,19 @@ Exact(A, rec) ==
 TNext == /\ l < Len(Steps(tid))
          /\ LET rec == Steps(tid)[l + 1]
                 cur2 == MergeD(cur, rec.d)
-                A == Abs(cur)
+                A == absS
                 B == Abs(cur2)
                 em2 == emit \o NewEmitted(A, B)
                 lg2 == logd \o rec.newlog
             IN /\ cur' = cur2
+               /\ absS' = B
                /\ l' = l + 1
                /\ emit' = em2 /\ logd' = lg2
                /\ \A n \in RangeOf(InvNames) : Report(InvHolds(B, n), "L1", l + 1, n)
                /\ \A n \in RangeOf(TrNames) : Report(TrHolds(A, B, n), "L1", l + 1, n)
                /\ Report(Truth_C19(B, cur2.q), "L1", l + 1, "C19.truth")
-               /\ bos' = IF Boundary(A, B) THEN cur ELSE bos
-               /\ Report(Len(rec.rows) = 0 \/ (Len(rec.rows) = 1 /\ RowOK(Abs(IF Boundary(A, B) \/ l = 1 THEN cur ELSE bos), rec.rows[1])), "L1", l + 1, "C12.row")
+               /\ bos' = IF Boundary(A, B) THEN A ELSE bos
+               /\ Report(Len(rec.rows) = 0 \/ (Len(rec.rows) = 1 /\ RowOK(IF Boundary(A, B) \/ l = 1 THEN A ELSE bos, rec.rows[1])), "L1", l + 1, "C12.row")
                /\ Report(NoLoss(em2, lg2, B), "L1", l + 1, "C13.noloss")
                /\ Report(NoDup(em2, lg2), "L1", l + 1, "C13.nodup")
                /\ IF l + 1 = Len(Steps(tid)) THEN EndChecks(TData.traces[tid], l + 1) ELSE TRUE
